@@ -62,7 +62,7 @@ def prop_C17(ctx, tier):
               'Not decided: blocking inside user code; liveness beyond lock order.', ASSUME_COMMON)
     w = ctx.world
     edges, _ = L.check_lock_order(run, w)
-    n2, _ = L.check_dashmap_discipline(run, w)
+    n2, _ = L.check_dashmap_discipline(run, w, namer=ctx.label)
     run.ok('C17-L2', 'all-blocking-acquisitions', '%d blocking acquisitions examined for a live DashMap reference' % n2)
     L.check_user_code(run, ctx, w)
     nw = L.check_wrapper_user_code(run, ctx, w)
@@ -126,7 +126,7 @@ def prop_C20(ctx, tier):
               'registration and the lookup touch the cache. T1: compile-time witness that the future is Send (twin holding a guard across await must fail).', ASSUME_COMMON)
     w = ctx.world
     fx = ctx.fx_async
-    n, bad = L.check_yield(run, w, only=lambda b: b.crate is fx)
+    n, bad = L.check_yield(run, w, only=lambda b: b.crate is fx, namer=ctx.label)
     run.require('C20-L1', 'yield points in generated async wrappers', n, 100)
     if tier == 'thorough':
         gen = ctx.u5_generated()
